@@ -23,7 +23,7 @@ PROP = "C04"
 TITLE = "Transforming a 1D grid is a faithful change of variables"
 REQUIRED_HOOKS = ["BaseTransform.transform_1d_grid", "decided:weights-magnitude", "decided:weights-sign", "decided:domain-image", "decided:sum-identity", "decided:points-dtype", "decided:sequence-repeat"]
 FAM_TF = [c03.CLS[k] for k in c03.KINDS] + ["InverseRTransform"]
-REQUIRED_FAMILIES = FAM_TF + ["chain", "subdomain", "gl-linear-exactness", "exp-integral", "incidental", "pinned", "sequence", "dtype-grid", "boundary"]
+REQUIRED_FAMILIES = FAM_TF + ["chain", "subdomain", "gl-linear-exactness", "exp-integral", "incidental", "pinned", "sequence", "dtype-grid", "boundary", "large-n"]
 BUDGET = {"quick": 900, "thorough": 7200}  # per-worker seconds; expected on 16 idle cores: quick ~10 s, thorough ~3-4 min
 MAX_DISCARD_FRACTION = 0.02
 TOL_EXPINT = 1e-3  # |beta*I - 1|; largest quadrature error seen (GL n=60/120, beta*R in [2,4]) 2.8e-6; the sign defect gives 2
@@ -36,6 +36,8 @@ KINDS_M11 = ["Becke", "LinearFinite", "MultiExp", "Knowles", "Handy", "HandyMod"
 KINDS_0INF = ["Identity", "LinearInfinite", "Exp", "Power", "Hyperbolic"]
 INV_M11 = ["LinearFinite", "HandyMod"]  # InverseRTransform(T) whose domain (rmin, rmax) can contain [-1, 1]
 INV_0INF = ["Becke", "MultiExp", "Knowles", "Handy", "Identity", "Hyperbolic"]  # domain (0, inf) when rmin = 0
+LARGE_RULES = ["GaussLegendre", "GaussChebyshev", "ClenshawCurtis-interior", "TanhSinh"]
+LARGE_N = [200, 300, 500, 1000]
 DTYPE_GRIDS = {
     "m11": ["int64-midpoint", "int32-midpoint", "int64-trapezoid", "int32-trapezoid", "int64-simpson", "int32-simpson", "int64-simpson-intweights", "float32-nodes+weights", "float32-weights"],
     "0inf": ["int64-arange", "int32-arange", "int64-arange-intweights", "float32-nodes+weights", "float32-weights"],
@@ -51,13 +53,14 @@ RULE = (
     "Further input classes: ONE transform object applied to ~13 grids in a row (same rule class and size with different rule parameters, "
     "hand-made grids, the two halves of one grid, the same grid twice; family 'sequence'), hand-made OneDGrids whose nodes are stored as "
     "int64/int32 (midpoint/trapezoid/Simpson on {-1,0,1}, 0..n-1 on the half line) or float32 ('dtype-grid'), C03's boundary parameter "
-    "values x numeric spellings ('boundary'). "
+    "values x numeric spellings ('boundary'), large rules crowding both ends (GaussLegendre, GaussChebyshev, ClenshawCurtis without its end "
+    "nodes, TanhSinh with n in {200,300,500,1000}; UniformInteger(200..1000) on the half line; family 'large-n'); rmin up to 1e3 (rmin/R up to 2e4). "
     "Admissibility: a node that sits ON an end of the transform's domain where the map is singular (Becke/Knowles/Handy x=1, "
     "MultiExp x=-1, Inverse(T) at r=rmin when T'(-1)=0) is not an admissible pairing and is skipped (counted); Hyperbolic gets "
     "b*max(x,n-1)<1. A case is non-trivial when the weight identity was decided on at least one node."
 )
 ASSUMPTIONS = [
-    "|J| oracle: long-double Chebyshev differentiation of the implemented tf.transform, rel 1e-6 + 100 x its error estimate; nodes where that exceeds 1e-3 are undecided (counted)",
+    "|J| oracle: long-double Chebyshev differentiation of the implemented tf.transform; per-node tolerance 1e-9 relative + 100 x its error estimate + conditioning allowance 100 eps (|J| + |x J'|) (plus, for InverseRTransform only, the measured float64 rounding of 1/T'(T.inverse(r))); the tolerance does not depend on how the library evaluates its own deriv; nodes whose tolerance exceeds 1e-3 |J| are undecided (counted)",
     "exp-integral clause: |beta*I - 1| <= 1e-3 with Gauss-Legendre n in {60,120}, rmin=0 and beta*R in [2,4] (integrand (1-u^k)^(beta R-1) smooth at the singular end; largest quadrature error seen 2.8e-6; for beta*R<1 Gauss-Legendre through the logarithmic maps is only accurate to ~0.1 and is not used)",
     "admissible pairings only: no node on a singular end of the map",
 ]
@@ -147,6 +150,25 @@ def cases(tier, seed):
                         if tier == "quick" and (j + len(gv)) % 2 != seed % 2 and not gv.startswith("int64"):
                             continue
                         out.append(("dtype-grid", {"dom": dom, "grid": gv, "tf": tfp, **({"inv": True} if inv else {})}, 1.0))
+    # (d) LARGE rules whose nodes crowd both ends (element-wise weight identity at every node, also the ones next to the ends)
+    big = [(r, n) for r in LARGE_RULES for n in LARGE_N]
+    j = 0
+    for inv, kk in ((False, KINDS_M11), (True, INV_M11)):
+        for kind in kk:
+            variants = [p for k, p in _tf_grid([kind])]
+            if inv:
+                variants = [p for p in variants if p.get("rmin") in (0.0, 1.0)]
+            nv = 6 if tier == "quick" else 24
+            for t in range(nv):
+                j += 1
+                p = variants[(seed * 5 + j * 7 + t * max(1, len(variants) // nv)) % len(variants)]
+                combos = [big[(j + seed + t) % len(big)]] if tier == "quick" else big[(j + t) % 2 :: 2]
+                for r, n in combos:
+                    out.append(("large-n", {"rule": r, "n": n, "tf": {"kind": kind, **p}, **({"inv": True} if inv else {})}, 4.0 + n / 100))
+    for kind in KINDS_0INF:
+        variants = [p for k, p in _tf_grid([kind])]
+        for t, n in enumerate((200, 500, 1000) if tier == "thorough" else ((200, 500, 1000)[seed % 3],)):
+            out.append(("large-n", {"rule": "UniformInteger", "n": n, "tf": {"kind": kind, **variants[(seed + t) % len(variants)]}}, 4.0 + n / 100))
     for kind, p in c03._boundary():
         rules = ("GaussLegendre:8", "Trapezoidal:5", "int64-simpson") if kind in KINDS_M11 else ("UniformInteger:6", "GaussLaguerre:6")
         for r in rules:
@@ -174,6 +196,8 @@ def make_rule(name, n, rng=None):
         return og.ExpSinh(n, h=min(1.0, 3.5 / max(m, 1)))
     if name == "TanhSinh":
         return og.TanhSinh(n, delta=min(0.1, 3.0 / max(m, 1)) if m > 30 else 0.1)
+    if name == "ClenshawCurtis-interior":
+        return og.ClenshawCurtis(n)[1:-1]  # the closed rule without its two end nodes
     if name == "TrefethenGeneral":
         return og.TrefethenGeneral(n, og.FejerFirst, d=5)
     if name == "TrefethenStripGeneral":
@@ -338,7 +362,7 @@ def run_case(ctx, family, params):
     import grid.rtransform as rt
     from grid.basegrid import OneDGrid
 
-    if family in FAM_TF:
+    if family in FAM_TF or family == "large-n":
         g = make_rule(params["rule"], params["n"], ctx.rng)
         inv = bool(params.get("inv"))
         I, tf = build_tf(ctx, params["tf"], inv, g)
